@@ -18,7 +18,8 @@ PROP = {'gen': [],
  'props_module': 'Props.C05',
  'corr_check': 'SNT.Corr.C05Corr.c05_check (model Encoder/Encode.v vs surf_n_term::encoder::TTYEncoder::encode; predicate: '
                'independent VT/xterm parser+interpreter Encoder/VT.v applied to the implementation bytes = Encoder/Denote.v)',
- 'level_text': 'Coq theorems over an executable model of TTYEncoder::encode (all 27 TerminalCommand variants, Chunks join, colour '
+ 'level_text': 'Coq theorems over an executable model of TTYEncoder::encode (all 27 TerminalCommand variants; 24 carry content, Image/ImageErase emit nothing in this encoder and Raw means its '
+               'own bytes, so those three arms are tautological; Chunks join, colour '
                'encoding per depth, alt-screen keyboard bracketing) and an independent UTF-8-mode ECMA-48/xterm parser+interpreter '
                'written from the standards: for EVERY command and parameter value in the domain (usize/i32 extremes included) and '
                'every capability set the emitted bytes are interpreted as exactly the command\'s denotation; Face in true colour '
